@@ -5,15 +5,18 @@ R16.2 format tables agree; R16.3 PNG/JPEG dimension offsets; R16.4 goal size thr
 inch->twip conversion (who-may-convert rule, shared with C06); R16.5 per-figure loop shape and the
 dimension reuse rule; R16.6 placement predicates of the figure path (shared with C06).
 
-The figure functions are small and pure, so they are decided by *evaluating* their syntax trees (FlowDT of c06, the
-repository code is never imported) on concrete models: synthetic PNG/JPEG headers, hex strings of several lengths,
-size lists of several lengths, lists of 1-3 figures.  A function that leaves the interpretable subset is an analysis gap.
+The figure functions are small and pure; they are decided by *abstract evaluation* of their syntax trees (FlowDT of c06: the
+repository code is never imported): every input is an uninterpreted symbol (the image bytes, the list of paths, the size
+lists, the figure index), every consulted condition is enumerated over all valuations, loops over symbolic collections are
+ONE generic iteration, and the verdict is read off the resulting terms (which slice of which buffer is decoded with which
+struct format, which bounds the hex lines have as linear forms, which element of which list reaches which argument).  The
+only exhaustively enumerated concrete domain is the value of a byte (0..255) in the JPEG marker test.  A function that
+leaves the interpretable subset is an analysis gap.
 """
 from __future__ import annotations
 
 import ast
 import re
-import struct
 
 from ..consteval import const_expr
 from ..dtab import NeedAtom, Sym, Unsupported
@@ -78,8 +81,40 @@ def _params(fi) -> list[str]:
 
 # ---------------------------------------------------------------------------------------------------- R16.1
 
-def _hex_model(n_bytes: int) -> str:
-    return bytes((37 * k + 11) % 256 for k in range(n_bytes)).hex()
+_PATH_WRAPPERS = {"Path", "PurePath", "str", "fspath", "resolve", "expanduser", "absolute"}
+
+
+def _unwrap_path(x):
+    """the term a path-like term was made from (Path(p), str(p), p.resolve() ... -> p)"""
+    from .c06 import CallV
+    for _ in range(6):
+        if isinstance(x, CallV) and x.fn in _PATH_WRAPPERS:
+            if len(x.args) == 1 and not x.kw:
+                x = x.args[0]
+                continue
+            if not x.args and isinstance(x.recv, Sym):
+                x = x.recv
+                continue
+        break
+    return x
+
+
+def _split_generic(lst):
+    """(elements outside any generic iteration, {loop: elements added by its generic iteration}) of an accumulator"""
+    from .c06 import Marker
+    outside, inside, stack = [], {}, []
+    for x in lst:
+        if isinstance(x, Marker):
+            if x.kind == "begin":
+                stack.append(x.loop)
+                inside.setdefault(x.loop, [])
+            elif stack:
+                stack.pop()
+        elif stack:
+            inside[stack[-1]].append(x)
+        else:
+            outside.append(x)
+    return outside, inside
 
 
 def r16_1(ctx: Ctx) -> None:
@@ -121,73 +156,156 @@ def r16_1(ctx: Ctx) -> None:
         ctx.violation("R16.1", rd.short, "read " + (unparse(rets[0].value) if rets else "?"), rd.where(), "image bytes are not the complete binary content of the file")
     elif verdict == "gap":
         ctx.gap("R16.1", "how _read_image_data obtains the file content could not be re-identified (expected open(path, 'rb').read() or Path.read_bytes())")
-    # rtf_read_figure on concrete lists of paths: data/format k come from file k, unchanged, in the given order
+    _read_figure_flow(ctx)
+    _hex_partition(ctx)
+
+
+def _read_figure_flow(ctx: Ctx) -> None:
+    """rtf_read_figure over a symbolic argument: in the generic iteration of the loop over the paths, the element appended to
+    the data list is _read_image_data(<path of the current element>) and the one appended to the format list is
+    _determine_image_format(<path of the same element>); both lists start empty and are returned as (data, formats)"""
+    from .c06 import CallV, SubV
+    pm = ctx.pm
     rf = pm.func("rtf_read_figure")
     for d in rf.decorators:
         ctx.violation("R16.1", rf.short, "decorator " + d, rf.where(), f"rtf_read_figure is wrapped by {d}")
     ps = _params(rf)
     if len(ps) != 1:
         ctx.gap("R16.1", "rtf_read_figure no longer takes one argument")
-    else:
-        bad = None
-        n_ok = 0
-        for n in (1, 3):
-            paths = [Sym(f"p{k}") for k in range(n)]
-            dt = _flow(pm, opaque={"_determine_image_format", "_read_image_data"}, max_atoms=12)
-            rows = _table(ctx, "R16.1", dt, rf, {ps[0]: list(paths)}, "rtf_read_figure")
-            if rows is None:
-                break
-            full = [(v, r) for v, r in rows if r.raised is None]
-            if not full:
-                ctx.gap("R16.1", "rtf_read_figure returns on no evaluated path")
-                break
-            for v, r in full:
-                ret = r.ret
-                if not (isinstance(ret, (tuple, list)) and len(ret) == 2 and all(isinstance(x, list) for x in ret)):
-                    ctx.gap("R16.1", f"rtf_read_figure does not return a pair of lists on the model ({str(ret)[:60]})")
-                    bad = bad or ""
+        return
+    dt = _flow(pm, opaque={"_determine_image_format", "_read_image_data"}, max_atoms=12)
+    rows = _table(ctx, "R16.1", dt, rf, {ps[0]: Sym(ps[0])}, "rtf_read_figure")
+    if rows is None:
+        return
+    full = [(v, r) for v, r in rows if r.raised is None]
+    if not full:
+        ctx.gap("R16.1", "rtf_read_figure returns on no evaluated path")
+        return
+    bad = None
+    n_ok = n_gen = 0
+    for v, r in full:
+        ret = r.ret
+        if not (isinstance(ret, (tuple, list)) and len(ret) == 2 and all(isinstance(x, list) for x in ret)):
+            ctx.gap("R16.1", f"rtf_read_figure does not return a pair of lists ({str(ret)[:60]})")
+            return
+        (d_out, d_in), (f_out, f_in) = _split_generic(ret[0]), _split_generic(ret[1])
+        pairs = []                    # (data element, format element, the source element both must come from)
+        if len(d_out) != len(f_out) or set(d_in) != set(f_in):
+            bad = bad or f"the data list and the format list are filled in different places ({len(d_out)}/{len(f_out)} literal, loops {sorted(d_in)}/{sorted(f_in)})"
+            continue
+        for de, fe in zip(d_out, f_out):
+            pairs.append((de, fe, None))
+        for lp in d_in:
+            n_gen += 1
+            if len(d_in[lp]) != 1 or len(f_in[lp]) != 1:
+                bad = bad or f"one iteration over the paths appends {len(d_in[lp])} data element(s) and {len(f_in[lp])} format(s), expected one each"
+                continue
+            pairs.append((d_in[lp][0], f_in[lp][0], lp))
+        for de, fe, lp in pairs:
+            if not (isinstance(de, CallV) and de.fn == "_read_image_data" and len(de.args) == 1):
+                bad = bad or f"a data element is `{str(dt.show(de))[:70]}`, not the unchanged result of _read_image_data(path)"
+                continue
+            if not (isinstance(fe, CallV) and fe.fn == "_determine_image_format" and len(fe.args) == 1):
+                bad = bad or f"a format element is `{str(dt.show(fe))[:70]}`, not the result of _determine_image_format(path)"
+                continue
+            src_d, src_f = _unwrap_path(de.args[0]), _unwrap_path(fe.args[0])
+            if not (isinstance(src_d, Sym) and isinstance(src_f, Sym) and src_d.path == src_f.path):
+                bad = bad or f"data is read from `{dt.show(src_d)}` but the format is determined from `{dt.show(src_f)}`"
+                continue
+            if lp is not None:
+                if not (isinstance(src_d, SubV) and isinstance(src_d.base, Sym) and src_d.base.path == ps[0] and isinstance(src_d.key, Sym) and src_d.key.path == lp):
+                    bad = bad or f"iteration {lp} reads `{dt.show(src_d)}`, not the current element of {ps[0]}"
                     continue
-                datas = [str(x.path if isinstance(x, Sym) else x) for x in ret[0]]
-                fmts = [str(x.path if isinstance(x, Sym) else x) for x in ret[1]]
-                ok_d = len(datas) == n and all(re.fullmatch(r"_read_image_data\((Path\()?p%d\)?\)" % k, d) for k, d in enumerate(datas))
-                ok_f = len(fmts) == n and all(re.fullmatch(r"_determine_image_format\((Path\()?p%d\)?\)" % k, d) for k, d in enumerate(fmts))
-                if ok_d and ok_f:
-                    n_ok += 1
-                elif bad is None:
-                    bad = f"data {datas} formats {fmts}"
-        ctx.instance("R16.1", rf.where(), f"rtf_read_figure on 1 and 3 paths: data[k] = _read_image_data(path k), format[k] = _determine_image_format(path k), in order: {n_ok} path(s) ok"
-                     + (f", disagreement {bad}" if bad else ""))
-        if bad:
-            ctx.violation("R16.1", rf.short, "figure data flow", rf.where(), f"rtf_read_figure no longer returns each file's bytes unchanged and in the given order: {bad[:160]}")
-    # _binary_to_hex on concrete hex strings: the lines partition the string exactly, no byte is split, whitespace separators
+            elif src_d.path != ps[0]:
+                bad = bad or f"a single path is read from `{dt.show(src_d)}`, not from {ps[0]}"
+                continue
+            n_ok += 1
+    ctx.instance("R16.1", rf.where(), f"rtf_read_figure over a symbolic argument ({len(full)} returning valuation(s), {n_gen} generic iteration(s) of the path loop): data element = "
+                 f"_read_image_data(current path), format element = _determine_image_format(same path), lists start empty, returned as (data, formats): {n_ok} element pair(s) ok"
+                 + (f", disagreement: {bad}" if bad else ""))
+    if bad:
+        ctx.violation("R16.1", rf.short, "figure data flow", rf.where(), f"rtf_read_figure no longer returns each file's bytes unchanged and in the given order: {bad[:200]}")
+    elif not n_gen:
+        ctx.gap("R16.1", "rtf_read_figure: no loop over the given paths was re-identified")
+
+
+def _hex_partition(ctx: Ctx) -> None:
+    """_binary_to_hex over symbolic bytes: the lines are the slices H[s : s + L] of H = data.hex() for s over range(0, len(H), L)
+    (linear forms of the slice bounds: consecutive bounds partition H), L a positive even literal of the source (no byte is
+    split across lines), joined by whitespace only"""
+    from .c06 import CallV, SliceV, lin_of, lin_add
+    pm = ctx.pm
     bh = pm.func("RTFFigureService._binary_to_hex")
     ps = _params(bh)
     if len(ps) != 1:
         ctx.gap("R16.1", "_binary_to_hex no longer takes one argument")
         return
-    bad = {}
+    dt = _flow(pm, max_atoms=8)
+    rows = _table(ctx, "R16.1", dt, bh, {ps[0]: Sym(ps[0])}, "_binary_to_hex")
+    if rows is None:
+        return
+    bad: dict[str, str] = {}
     n_ok = 0
-    for n_bytes in (0, 1, 39, 40, 41, 80, 81, 100, 159, 400):
-        hx = _hex_model(n_bytes)
-        dt = _flow(pm, call_model={"hex": lambda a, k, hx=hx: hx if not a and not k else (_ for _ in ()).throw(ValueError("hex with separator"))}, max_atoms=8)
-        rows = _table(ctx, "R16.1", dt, bh, {ps[0]: Sym(ps[0])}, "_binary_to_hex")
-        if rows is None:
+    for v, r in rows:
+        if r.raised is not None:
+            continue
+        out = r.ret
+        if isinstance(out, CallV) and out.fn == "hex" and isinstance(out.recv, Sym) and out.recv.path == ps[0] and not out.args:
+            n_ok += 1                 # the unbroken hex string
+            continue
+        if not isinstance(out, list):
+            ctx.gap("R16.1", f"_binary_to_hex does not evaluate to a whitespace-joined sequence of pieces ({str(dt.show(out))[:60]})")
             return
-        for v, r in rows:
-            out = r.ret
-            if r.raised is not None or not isinstance(out, str) or "‹" in out:
-                ctx.gap("R16.1", f"_binary_to_hex does not evaluate to a string on the model of {n_bytes} bytes ({r.raised or str(out)[:60]})")
-                return
-            lines = out.split("\n") if out else []
-            if "".join(out.split()) != hx:
-                bad.setdefault("partition", f"{n_bytes} bytes: the joined lines differ from bytes.hex() (characters lost or duplicated)")
-            elif any(len(ln.strip()) % 2 for ln in re.split(r"\s+", out) if ln):
-                bad.setdefault("partition odd line length", f"{n_bytes} bytes: a line of {max(len(x) for x in lines)} hex digits splits a byte across lines")
-            elif re.sub(r"[0-9a-f\s]", "", out):
-                bad.setdefault("separator", f"{n_bytes} bytes: hex lines are joined by something other than whitespace")
-            else:
-                n_ok += 1
-    ctx.instance("R16.1", bh.where(), f"_binary_to_hex evaluated on hex strings of 10 lengths: lines concatenate to bytes.hex(), even line lengths, whitespace separators: {n_ok} ok, {len(bad)} kind(s) of disagreement")
+        outside, inside = _split_generic(out)
+        joins = [e for e in r.effects if e[0] == "join"]
+        if any(str(e[1]).strip() for e in joins):
+            bad.setdefault("separator", f"hex lines are joined by {joins[0][1]!r}, not by whitespace only")
+        if [x for x in outside if not (isinstance(x, str) and not x.strip())] or len(inside) != 1:
+            ctx.gap("R16.1", f"_binary_to_hex: the result is not built by one loop over the hex string ({len(inside)} loop(s), literal pieces {outside[:2]})")
+            return
+        (lp, pieces), = inside.items()
+        if len(pieces) != 1 or not isinstance(pieces[0], SliceV):
+            ctx.gap("R16.1", f"_binary_to_hex: one iteration adds {[str(dt.show(x))[:40] for x in pieces]}, expected one slice of the hex string")
+            return
+        sl = pieces[0]
+        h = sl.base
+        if not (isinstance(h, CallV) and h.fn == "hex" and isinstance(h.recv, Sym) and h.recv.path == ps[0] and not h.args and not h.kw):
+            bad.setdefault("payload source", f"the lines are slices of `{dt.show(h)}`, not of {ps[0]}.hex()")
+            continue
+        lo, hi = lin_of(sl.lo if sl.lo is not None else 0), (lin_of(sl.hi) if sl.hi is not None else None)
+        if lo is None or hi is None or sl.step is not None:
+            ctx.gap("R16.1", f"_binary_to_hex: the bounds of the line slice `{dt.show(sl)}` are not linear in the loop position")
+            return
+        step = lo.get(lp)
+        start = {k: c for k, c in lo.items() if k != lp}
+        width = lin_add(hi, lo, -1)
+        n_it = dt.gen_loops.get(lp, [])
+        if not isinstance(step, int) or step <= 0 or set(width) - {""}:
+            ctx.gap("R16.1", f"_binary_to_hex: line bounds `{dt.show(sl)}` do not advance by a constant number of hex digits per line")
+            return
+        w = width.get("", 0)
+        if start:
+            bad.setdefault("partition", f"the first line starts at `{start}` instead of 0 (leading hex digits are lost)")
+        if w != step:
+            bad.setdefault("partition", f"line k is H[{step}k : {step}k + {w}] but the next line starts at {step}(k+1): "
+                           + ("lines overlap, hex digits are duplicated" if w > step else "hex digits between the lines are lost"))
+        # the loop must run to the end of H: range(0, len(H), L) -- its stop is the length of the sliced string
+        stops = [e for e in r.effects if e[0] == "loop-begin" and e[1] == lp]
+        rng = getattr(dt, "range_of", {}).get(lp)
+        if rng is None:
+            ctx.gap("R16.1", "_binary_to_hex: the line loop is not a range over the positions of the hex string")
+            return
+        stop = lin_of(rng[1])
+        if stop != {f"len({h.path})": 1}:
+            bad.setdefault("partition", f"the line starts run up to `{dt.show(rng[1])}`, not to len({ps[0]}.hex()): the tail of the payload is lost or padded")
+        if step % 2:
+            bad.setdefault("partition odd line length", f"a line holds {step} hex digits: an odd line length splits a byte across lines")
+        if not bad:
+            n_ok += 1
+    ctx.instance("R16.1", bh.where(), f"_binary_to_hex over symbolic bytes ({len(rows)} valuation(s)): lines = H[Lk : Lk + L] for k over range(0, len(H), L), H = data.hex(), L even literal, "
+                 f"whitespace separators: {n_ok} ok, {len(bad)} kind(s) of disagreement")
+    if not n_ok and not bad:
+        ctx.gap("R16.1", "_binary_to_hex: no evaluated path returns the hex lines")
     for k, msg in sorted(bad.items()):
         ctx.violation("R16.1", bh.short, k, bh.where(), f"_binary_to_hex: {msg}")
 
@@ -199,26 +317,89 @@ WANT_MIME = {"image/png": "png", "image/jpeg": "jpeg", "image/jpg": "jpeg"}
 WANT_BLIP = {"png": "\\pngblip", "jpeg": "\\jpegblip", "emf": "\\emfblip"}
 
 
-def _png(width: int, height: int) -> bytes:
-    ihdr = struct.pack(">II", width, height) + bytes([8, 6, 0, 0, 0])
-    return b"\x89PNG\r\n\x1a\n" + struct.pack(">I", len(ihdr)) + b"IHDR" + ihdr + b"\x12\x34\x56\x78" + b"\x00\x00\x00\x00IEND\xaeB`\x82"
+# ---- format facts (PNG: W3C PNG specification, 11.2.2 IHDR; JPEG: ITU-T T.81, table B.1 / B.2.2)
+PNG_SIGNATURE = b"\x89PNG\r\n\x1a\n"
+PNG_WIDTH, PNG_HEIGHT = (16, 4, "big"), (20, 4, "big")            # (offset, size, byte order) of IHDR width / height
+JPEG_SOI = b"\xff\xd8"
+JPEG_SOF = frozenset(range(0xC0, 0xD0)) - {0xC4, 0xC8, 0xCC}       # start-of-frame markers (not DHT, JPG, DAC)
+JPEG_HEIGHT, JPEG_WIDTH, JPEG_SEGLEN = (5, 2, "big"), (7, 2, "big"), (2, 2, "big")     # relative to the 0xFF of the marker
+
+_STRUCT_SIZES = {"x": 1, "c": 1, "b": 1, "B": 1, "?": 1, "h": 2, "H": 2, "i": 4, "I": 4, "l": 4, "L": 4, "q": 8, "Q": 8}
 
 
-def _jpeg_segment(marker: int, payload: bytes) -> bytes:
-    return bytes([0xFF, marker]) + struct.pack(">H", len(payload) + 2) + payload
+def _struct_layout(fmt: str):
+    """(byte order, [(offset, size)] of the values, total size) of a struct format with an explicit byte order (standard sizes)"""
+    if not fmt or fmt[0] not in "<>!":
+        return None
+    order = "little" if fmt[0] == "<" else "big"
+    vals, off = [], 0
+    for cnt, code in re.findall(r"(\d*)([a-zA-Z?])", fmt[1:]):
+        if code not in _STRUCT_SIZES or "".join(c + k for c, k in re.findall(r"(\d*)([a-zA-Z?])", fmt[1:])) != fmt[1:].replace(" ", ""):
+            return None
+        for _ in range(int(cnt) if cnt else 1):
+            if code != "x":
+                vals.append((off, _STRUCT_SIZES[code]))
+            off += _STRUCT_SIZES[code]
+    return order, vals, off
 
 
-def _jpeg(sof: int, width: int, height: int, before: tuple = ()) -> bytes:
-    body = b"\xff\xd8" + _jpeg_segment(0xE0, b"JFIF\x00\x01\x01\x00\x00\x01\x00\x01\x00\x00")
-    for m in before:
-        # a non-frame segment whose payload, if misread as a frame header, would give 0x0111 x 0x0222
-        body += _jpeg_segment(m, b"\x08" + struct.pack(">HH", 0x0111, 0x0222) + b"\x03\x01\x22\x00\x02\x11\x01\x03\x11\x01")
-    body += _jpeg_segment(sof, b"\x08" + struct.pack(">HH", height, width) + b"\x03\x01\x22\x00\x02\x11\x01\x03\x11\x01")
-    return body + _jpeg_segment(0xDA, b"\x00" * 10) + b"\x00" * 16 + b"\xff\xd9"
+def decoded_field(x):
+    """(buffer term, offset as linear form, size, byte order) of an integer term decoded from a buffer, None if the term is not
+    recognised as such, a string describing the inconsistency when the slice and the struct format disagree"""
+    from .c06 import CallV, SliceV, SubV, lin_add, lin_of
+    if isinstance(x, SubV) and isinstance(x.base, CallV) and x.base.fn in ("unpack", "unpack_from") and isinstance(x.key, int) and not isinstance(x.key, bool):
+        c = x.base
+        fmt = c.args[0] if c.args and isinstance(c.args[0], str) else None
+        lay = _struct_layout(fmt) if fmt else None
+        if lay is None:
+            return None
+        order, vals, total = lay
+        if not 0 <= x.key < len(vals):
+            return f"value {x.key} of struct format {fmt!r}"
+        off, size = vals[x.key]
+        if c.fn == "unpack" and len(c.args) == 2 and isinstance(c.args[1], SliceV) and c.args[1].step is None:
+            sl = c.args[1]
+            lo = lin_of(sl.lo if sl.lo is not None else 0)
+            hi = lin_of(sl.hi) if sl.hi is not None else None
+            if lo is None:
+                return None
+            if hi is not None:
+                w = lin_add(hi, lo, -1)
+                if set(w) <= {""} and w.get("", 0) != total:
+                    return f"struct format {fmt!r} ({total} bytes) applied to a slice of {w.get('', 0)} bytes"
+            return sl.base, lin_add(lo, {"": off} if off else {}), size, order
+        if c.fn == "unpack_from" and len(c.args) >= 2:
+            kw = dict(c.kw)
+            o = c.args[2] if len(c.args) > 2 else kw.get("offset", 0)
+            lo = lin_of(o)
+            if lo is None:
+                return None
+            return c.args[1], lin_add(lo, {"": off} if off else {}), size, order
+        return None
+    if isinstance(x, CallV) and x.fn == "from_bytes" and x.args and isinstance(x.args[0], SliceV) and x.args[0].step is None:
+        sl = x.args[0]
+        kw = dict(x.kw)
+        order = x.args[1] if len(x.args) > 1 else kw.get("byteorder", "big")
+        lo = lin_of(sl.lo if sl.lo is not None else 0)
+        hi = lin_of(sl.hi) if sl.hi is not None else None
+        if lo is None or hi is None or not isinstance(order, str) or kw.get("signed") not in (None, False):
+            return None
+        w = lin_add(hi, lo, -1)
+        if set(w) - {""}:
+            return None
+        return sl.base, lo, w.get("", 0), order
+    return None
 
 
-_STRUCT = {"unpack": lambda a, k: struct.unpack(*a), "unpack_from": lambda a, k: struct.unpack_from(*a, **k),
-           "calcsize": lambda a, k: struct.calcsize(*a), "from_bytes": lambda a, k: int.from_bytes(*a, **k)}
+def _field_ok(got, data: str, want_off: dict, size: int, order: str) -> bool:
+    return isinstance(got, tuple) and isinstance(got[0], Sym) and got[0].path == data and got[1] == want_off and got[2] == size and got[3] == order
+
+
+def _show_field(dt, got) -> str:
+    from .c06 import lin_text
+    if isinstance(got, str):
+        return got
+    return f"{got[2]} bytes at offset {lin_text(got[1])} of `{dt.show(got[0])}`, {got[3]}-endian"
 
 
 def r16_2_3(ctx: Ctx) -> None:
@@ -229,13 +410,20 @@ def r16_2_3(ctx: Ctx) -> None:
     if len(ps) != 1:
         ctx.gap("R16.2", "_determine_image_format no longer takes one argument")
     else:
+        # the domain of a compared string is partitioned by the literals it can be compared with: every key of the documented tables, every
+        # string literal of the analysed function of the same kind, and ONE representative of "any other string" (plus an upper-case
+        # variant of a key where the suffix is compared without case folding)
+        lits = [c.value for c in ast.walk(df.node) if isinstance(c, ast.Constant) and isinstance(c.value, str)]
+        sfx_dom = list(dict.fromkeys(list(WANT_SUFFIX) + [x for x in lits if re.fullmatch(r"\.\w{1,8}", x)] + [".~other"]))
+        mime_dom = list(dict.fromkeys(list(WANT_MIME) + [x for x in lits if re.fullmatch(r"[\w.+-]+/[\w.+-]+", x)] + ["~other/~other", None]))
+
         def dom(path: str):
             if re.search(r"\.suffix(es\[-1\])?(\.lower\(\)|\.casefold\(\))$", path):
-                return list(WANT_SUFFIX) + [".gif"]
+                return sfx_dom
             if re.search(r"\.suffix(es\[-1\])?$", path):
-                return list(WANT_SUFFIX) + [".PNG", ".gif"]       # compared without case folding
+                return sfx_dom + [".PNG"]                        # compared without case folding
             if "guess_type" in path and path.endswith("[0]"):
-                return list(WANT_MIME) + ["image/gif", None]
+                return mime_dom
             return None
         dt = _flow(pm, sym_domain=dom, max_atoms=12)
         rows = _table(ctx, "R16.2", dt, df, {ps[0]: Sym(ps[0])}, "_determine_image_format")
@@ -254,6 +442,10 @@ def r16_2_3(ctx: Ctx) -> None:
                 want = WANT_SUFFIX.get(sfx.lower())
                 if want is None:
                     want = WANT_MIME.get(mime, "<raises>") if mime != "<unconsulted>" else None
+                if want is None and isinstance(got, str) and got != "<raises>":
+                    bad.setdefault(f"suffix table {sfx} -> {got}", f"_determine_image_format gives {got!r} for the undocumented suffix {sfx!r} without consulting the guessed MIME type; "
+                                   f"documented suffixes are {sorted(WANT_SUFFIX)}")
+                    continue
                 if want is None or (isinstance(got, Sym)):
                     ctx.gap("R16.2", f"_determine_image_format: result `{got}` for suffix {sfx!r} is not decided by the model")
                     break
@@ -261,7 +453,8 @@ def r16_2_3(ctx: Ctx) -> None:
                     bad.setdefault(f"suffix table {sfx} -> {got}" if sfx.lower() in WANT_SUFFIX else f"mime table {mime} -> {got}",
                                    f"_determine_image_format gives {got!r} for suffix {sfx!r}" + (f", MIME {mime!r}" if mime != "<unconsulted>" else "") + f"; documented {want!r}"
                                    + (" (suffix comparison must be case-insensitive)" if sfx != sfx.lower() else ""))
-            ctx.instance("R16.2", df.where(), f"_determine_image_format: decision table over suffix x guessed MIME type, {n} rows, equals {WANT_SUFFIX} / {WANT_MIME}; {len(bad)} disagreement(s)")
+            ctx.instance("R16.2", df.where(), f"_determine_image_format: decision table over suffix ({len(sfx_dom)} classes: documented keys, literals of the source, any other) x guessed MIME type "
+                         f"({len(mime_dom)} classes), {n} rows, equals {WANT_SUFFIX} / {WANT_MIME}; {len(bad)} disagreement(s)")
             for k, msg in sorted(bad.items()):
                 ctx.violation("R16.2", df.short, k, df.where(), msg)
     # ---- the picture group: blip per format, \picw/\pich from the reader (or the 96 dpi fallback), goal sizes through the shared conversion, payload
@@ -348,174 +541,390 @@ def r16_2_3(ctx: Ctx) -> None:
             ctx.instance("R16.3", gi.where(), f"dimension dispatch png/jpeg by the figure's own format over {len(rows)} rows: {len(bad)} disagreement(s)")
             for k, msg in sorted(bad.items()):
                 ctx.violation("R16.3", gi.short, k, gi.where(), "pixel dimensions are not read by the reader of the figure's own format: " + msg)
-    # ---- the readers on synthetic images
-    png = pm.func("RTFFigureService._get_png_dimensions")
-    ps = _params(png)
-    cases = [("PNG 513x258", _png(0x01020304, 0x0A0B0C0D), (0x01020304, 0x0A0B0C0D)), ("PNG 640x480", _png(640, 480), (640, 480)),
-             ("not a PNG", b"\x00" * 8 + _png(640, 480)[8:], (None, None)), ("truncated PNG", _png(640, 480)[:20], (None, None))]
-    _reader(ctx, png, ps, cases, "IHDR offsets", "PNG width/height are not read big-endian from IHDR bytes 16-20 / 20-24 after the 8-byte signature")
-    jp = pm.func("RTFFigureService._get_jpeg_dimensions")
-    ps = _params(jp)
-    cases = []
-    for m in sorted(set(range(0xC0, 0xD0)) - {0xC4, 0xC8, 0xCC}):
-        cases.append((f"JPEG SOF{m - 0xC0} 0x{m:02X}", _jpeg(m, 0x0321, 0x0234), (0x0321, 0x0234)))
-    for m in (0xC4, 0xC8, 0xCC, 0xDB, 0xFE):
-        cases.append((f"JPEG with a 0x{m:02X} segment before SOF0", _jpeg(0xC0, 0x0321, 0x0234, before=(m,)), (0x0321, 0x0234)))
-    cases.append(("not a JPEG", b"\x00\x00" + _jpeg(0xC0, 10, 20)[2:], (None, None)))
-    _reader(ctx, jp, ps, cases, "SOF parsing", "JPEG height/width are not read from offsets +5/+7 of an SOF0-15 marker (excluding DHT/JPG/DAC) with length-based segment skipping")
+    _png_reader(ctx)
+    _jpeg_reader(ctx)
 
 
-def _reader(ctx: Ctx, fi, ps, cases, key: str, msg: str) -> None:
+def _signature_checks(dt, data: str):
+    """[(atom key, slice bounds as (lo, hi) linear forms, bytes constant, polarity of the atom meaning 'matches')] for the
+    comparisons of a leading slice of the buffer with a bytes literal"""
+    from .c06 import SliceV, lin_of
+    out = []
+    for key, (op, l, r) in dt.cmpinfo.items():
+        if op not in (ast.Eq, ast.NotEq):
+            continue
+        sl, const = (l, r) if isinstance(r, (bytes, bytearray)) else (r, l)
+        if isinstance(sl, SliceV) and isinstance(const, (bytes, bytearray)) and isinstance(sl.base, Sym) and sl.base.path == data and sl.step is None:
+            out.append((key, lin_of(sl.lo if sl.lo is not None else 0), lin_of(sl.hi) if sl.hi is not None else None, bytes(const), op is ast.Eq))
+    return out
+
+
+def _png_reader(ctx: Ctx) -> None:
+    """_get_png_dimensions over symbolic bytes: on every path that returns dimensions, width and height are terms decoding 4
+    big-endian bytes at offsets 16 and 20 of the data (IHDR directly after the 8-byte signature); the signature test compares
+    data[0:8] with the PNG signature and dimensions are returned only when it matches"""
     pm = ctx.pm
+    fi = pm.func("RTFFigureService._get_png_dimensions")
+    ps = _params(fi)
     if len(ps) != 1:
         ctx.gap("R16.3", f"{fi.short} no longer takes one argument")
         return
-    bad = []
-    for name, data, want in cases:
-        dt = _flow(pm, call_model=_STRUCT, max_atoms=6, root_cls="RTFFigureService")
-        rows = _table(ctx, "R16.3", dt, fi, {ps[0]: data}, fi.short)
-        if rows is None:
-            return
-        if len(rows) != 1:
-            ctx.gap("R16.3", f"{fi.short} is not decided by the image bytes alone (atoms {sorted(dt.discovered)[:3]})")
-            return
-        v, r = rows[0]
-        got = r.ret
-        if r.raised is not None:
-            got = (None, None)            # the caller (_get_image_dimensions) maps exceptions to (None, None)
-        if not (isinstance(got, (tuple, list)) and len(got) == 2 and all(x is None or isinstance(x, int) for x in got)):
-            ctx.gap("R16.3", f"{fi.short} does not evaluate to a pair of integers on {name} ({str(got)[:60]})")
-            return
-        if tuple(got) != tuple(want):
-            bad.append(f"{name}: (width, height) = {tuple(got)}, the image says {tuple(want)}")
-    ctx.instance("R16.3", fi.where(), f"{fi.short} evaluated on {len(cases)} synthetic images: {len(bad)} wrong result(s)")
+    data = ps[0]
+    dt = _flow(pm, max_atoms=10, root_cls="RTFFigureService")
+    rows = _table(ctx, "R16.3", dt, fi, {data: Sym(data)}, fi.short)
+    if rows is None:
+        return
+    bad: list[str] = []
+    n_dim = 0
+    sigs = _signature_checks(dt, data)
+    for key, lo, hi, const, pol in sigs:
+        if lo != {} or hi != {"": len(PNG_SIGNATURE)} or const != PNG_SIGNATURE:
+            bad.append(f"the signature test compares data[{lo.get('', 0) if lo is not None else '?'}:{hi.get('', '?') if hi else '?'}] with {const!r}; a PNG file starts with the 8 bytes {PNG_SIGNATURE!r}")
+    for v, r in rows:
+        ret = r.ret
+        if r.raised is not None or not (isinstance(ret, (tuple, list)) and len(ret) == 2) or ret[0] is None or ret[1] is None:
+            continue
+        n_dim += 1
+        for key, _lo, _hi, _c, pol in sigs:
+            if key in v and v[key] != pol:
+                bad.append("dimensions are returned on a path where the signature test fails")
+        for name, term, (off, size, order) in (("width", ret[0], PNG_WIDTH), ("height", ret[1], PNG_HEIGHT)):
+            got = decoded_field(term)
+            if got is None:
+                ctx.gap("R16.3", f"{fi.short}: the {name} `{str(dt.show(term))[:70]}` is not recognised as an integer decoded from the image bytes")
+                return
+            if not _field_ok(got, data, {"": off}, size, order):
+                bad.append(f"{name} is decoded from {_show_field(dt, got)}; IHDR {name} is {size} bytes at offset {off}, {order}-endian")
+    ctx.instance("R16.3", fi.where(), f"{fi.short} over symbolic bytes ({len(rows)} valuation(s), {n_dim} returning dimensions): width/height = big-endian 32-bit fields at offsets 16 / 20, "
+                 f"signature test on data[0:8] ({len(sigs)} found): {len(bad)} disagreement(s)")
+    if not n_dim:
+        ctx.gap("R16.3", f"{fi.short}: no evaluated path returns dimensions")
     if bad:
-        ctx.violation("R16.3", fi.short, key, fi.where(), f"{msg}; {bad[0]}" + (f" (+{len(bad) - 1} more)" if len(bad) > 1 else ""))
+        ctx.violation("R16.3", fi.short, "IHDR offsets", fi.where(), "PNG width/height are not read big-endian from IHDR bytes 16-20 / 20-24 after the 8-byte signature; "
+                      + bad[0] + (f" (+{len(bad) - 1} more)" if len(bad) > 1 else ""))
+
+
+def _jpeg_reader(ctx: Ctx) -> None:
+    """_get_jpeg_dimensions over symbolic bytes: the scan loop is ONE generic iteration from an unconstrained cursor c; the byte
+    at the cursor and the marker byte after it are enumerated over all 256 values.  Required: dimensions are returned exactly
+    when data[c] == 0xFF and data[c+1] is a start-of-frame marker, as (width, height) = big-endian 16-bit fields at c+7 / c+5;
+    every other marker segment is skipped by its big-endian 16-bit length at c+2 (cursor += 2 + length); the scan starts at 2,
+    after the start-of-image marker"""
+    from .c06 import LinV, SubV, lin_of, lin_text
+    pm = ctx.pm
+    fi = pm.func("RTFFigureService._get_jpeg_dimensions")
+    ps = _params(fi)
+    if len(ps) != 1:
+        ctx.gap("R16.3", f"{fi.short} no longer takes one argument")
+        return
+    data = ps[0]
+    pat = re.compile(re.escape(data) + r"\[[^\]\[:]*\]$")
+    dt = _flow(pm, max_atoms=12, root_cls="RTFFigureService", sym_domain=lambda path: list(range(256)) if pat.match(path) else None)
+    rows = _table(ctx, "R16.3", dt, fi, {data: Sym(data)}, fi.short, limit=6000)
+    if rows is None:
+        return
+    bad: list[str] = []
+    # ---- the cursor: byte reads at c and c + 1
+    reads = {p: lin_of(t.key) for p, t in dt.domain_reads.items() if isinstance(t, SubV) and lin_of(t.key) is not None}
+    cursors = {k for lf in reads.values() for k in lf if k != "" and "@w" in k}
+    if len(cursors) != 1:
+        ctx.gap("R16.3", f"{fi.short}: the scan cursor was not re-identified (single bytes are read at {sorted(reads)[:4]})")
+        return
+    c = cursors.pop()
+    at = {tuple(sorted(lf.items())): p for p, lf in reads.items()}
+    p0, p1 = at.get(((c, 1),)), at.get(tuple(sorted({c: 1, "": 1}.items())))
+    if p0 is None or p1 is None or len(reads) != 2:
+        ctx.gap("R16.3", f"{fi.short}: expected single-byte reads at the cursor and directly after it, found {sorted(reads)}")
+        return
+    wid = c.split("@", 1)[1]
+    accepted, n_dim, n_skip = set(), 0, 0
+    for v, r in rows:
+        if r.raised is not None:
+            continue
+        ret = r.ret
+        dims = isinstance(ret, (tuple, list)) and len(ret) == 2 and ret[0] is not None and ret[1] is not None
+        b0, m = v.get(p0), v.get(p1)
+        if dims:
+            n_dim += 1
+            if b0 is None or m is None:
+                bad.append("dimensions are returned on a path that does not look at the marker bytes at the cursor")
+                continue
+            if b0 != 0xFF:
+                bad.append(f"dimensions are returned although the byte at the cursor is 0x{b0:02X}, not 0xFF")
+                continue
+            accepted.add(m)
+            for name, term, (off, size, order) in (("width", ret[0], JPEG_WIDTH), ("height", ret[1], JPEG_HEIGHT)):
+                got = decoded_field(term)
+                if got is None:
+                    ctx.gap("R16.3", f"{fi.short}: the {name} `{str(dt.show(term))[:70]}` is not recognised as an integer decoded from the image bytes")
+                    return
+                if not _field_ok(got, data, {c: 1, "": off}, size, order):
+                    bad.append(f"{name} is decoded from {_show_field(dt, got)}; in a frame header it is {size} bytes at marker+{off}, {order}-endian")
+        elif b0 == 0xFF and m is not None:
+            post = [r.raw.get(k) for k, e in enumerate(r.effects, 1) if e[0] == "while-iter" and e[1] == wid]
+            if not post:
+                continue
+            nxt = post[-1].get(c.split("@", 1)[0])
+            lf = lin_of(nxt)
+            if lf is None:
+                ctx.gap("R16.3", f"{fi.short}: the cursor after a non-frame segment (`{str(dt.show(nxt))[:60]}`) is not a linear form")
+                return
+            rest = {k: x for k, x in lf.items() if k not in (c, "")}
+            terms = {t.path: t for t in (nxt.terms if isinstance(nxt, LinV) else ())}
+            if lf.get(c) == 1 and len(rest) == 1 and list(rest.values()) == [1] and next(iter(rest)) in terms:
+                got = decoded_field(terms[next(iter(rest))])
+                if got is None:
+                    ctx.gap("R16.3", f"{fi.short}: the segment length `{next(iter(rest))[:60]}` is not recognised as an integer decoded from the image bytes")
+                    return
+                n_skip += 1
+                off, size, order = JPEG_SEGLEN
+                if not _field_ok(got, data, {c: 1, "": off}, size, order) or lf.get("", 0) != 2:
+                    bad.append(f"a non-frame segment (marker 0x{m:02X}) moves the cursor to `{lin_text(lf)[:80]}`; the next marker is at cursor + 2 + the big-endian 16-bit length at cursor+2")
+            elif lf == {c: 1, "": 1}:
+                bad.append(f"after a non-frame marker 0x{m:02X} the cursor only advances by one byte: the segment payload is scanned for marker bytes")
+            else:
+                ctx.gap("R16.3", f"{fi.short}: the cursor after a non-frame segment (`{lin_text(lf)[:60]}`) was not re-identified as cursor + 2 + length")
+                return
+    wrong_in, wrong_out = sorted(accepted - JPEG_SOF), sorted(JPEG_SOF - accepted)
+    if n_dim and wrong_in:
+        names = {0xC4: "DHT", 0xC8: "JPG", 0xCC: "DAC"}
+        bad.insert(0, "marker(s) " + ", ".join(f"0x{m:02X}" + (f" ({names[m]})" if m in names else "") for m in wrong_in[:6]) + " are taken for a frame header: their payload is misread as height/width")
+    if n_dim and wrong_out:
+        bad.insert(0, "start-of-frame marker(s) " + ", ".join(f"0x{m:02X}" for m in wrong_out[:6]) + " are not recognised")
+    # ---- initial state of the loop-carried cursor and the start-of-image test
+    for v, r in rows[:1]:
+        for k, e in enumerate(r.effects, 1):
+            if e[0] == "while-begin" and e[1] == wid:
+                init = r.raw.get(k, {}).get(c.split("@", 1)[0])
+                if isinstance(init, int) and init != len(JPEG_SOI):
+                    bad.append(f"the scan starts at offset {init}, not directly after the 2-byte start-of-image marker")
+                elif not isinstance(init, int):
+                    ctx.gap("R16.3", f"{fi.short}: the initial value of the scan cursor (`{dt.show(init)}`) is not a literal")
+    for key, lo, hi, const, pol in _signature_checks(dt, data):
+        if lo != {} or hi != {"": len(JPEG_SOI)} or const != JPEG_SOI:
+            bad.append(f"the start-of-image test compares data[{lo.get('', 0) if lo is not None else '?'}:{hi.get('', '?') if hi else '?'}] with {const!r}; a JPEG file starts with {JPEG_SOI!r}")
+    ctx.instance("R16.3", fi.where(), f"{fi.short} over symbolic bytes: ONE generic iteration of the scan loop from cursor `{c}`, {len(rows)} valuations (both marker bytes over 0..255): "
+                 f"dimensions returned for {len(accepted)} marker values (= the 13 SOF markers: {not wrong_in and not wrong_out}), height/width at +5/+7, {n_skip} segment skip(s) by the length at +2: "
+                 f"{len(bad)} disagreement(s)")
+    if not n_dim:
+        ctx.gap("R16.3", f"{fi.short}: no evaluated path returns dimensions")
+    if bad:
+        ctx.violation("R16.3", fi.short, "SOF parsing", fi.where(), "JPEG height/width are not read from offsets +5/+7 of an SOF0-15 marker (excluding DHT/JPG/DAC) with length-based segment skipping; "
+                      + bad[0] + (f" (+{len(bad) - 1} more)" if len(bad) > 1 else ""))
 
 
 # ---------------------------------------------------------------------------------------------------- R16.5
 
-def r16_5(ctx: Ctx) -> None:
+_NUM_TYPES, _SEQ_TYPES = {"int", "float", "Real", "Number", "numbers"}, {"list", "tuple", "Sequence", "abc", "collections", "typing", "Iterable"}
+
+
+def _dimension_rule(ctx: Ctx) -> None:
+    """_get_dimension over symbolic (dimension, index): decision table over the consulted conditions (is the size a number /
+    a sequence, index < len(sizes)) with the returned TERM: the sizes themselves for a scalar, sizes[index] inside the list,
+    sizes[-1] beyond its end"""
+    from .c06 import CallV, SubV, lin_of
     pm = ctx.pm
     gd = pm.func("RTFFigureService._get_dimension")
     ps = _params(gd)
     if len(ps) != 2:
         ctx.gap("R16.5", "_get_dimension no longer takes (dimension, index)")
-    else:
-        bad = []
-        n = 0
-        models = [([3.5], "list of 1"), ([1.5, 2.5], "list of 2"), ([1.5, 2.5, 4.0], "list of 3"), ((1.5, 2.5), "tuple of 2"), (6.25, "scalar"), (7, "integer scalar")]
-        for dim, name in models:
-            for idx in range(0, 5):
-                dt = _flow(pm, max_atoms=6, root_cls="RTFFigureService")
-                rows = _table(ctx, "R16.5", dt, gd, {ps[0]: dim, ps[1]: idx}, "_get_dimension")
-                if rows is None:
-                    return
-                if len(rows) != 1:
-                    ctx.gap("R16.5", f"_get_dimension is not decided by (dimension, index) alone (atoms {sorted(dt.discovered)[:3]})")
-                    return
-                r = rows[0][1]
-                want = dim if not isinstance(dim, (list, tuple)) else (dim[idx] if idx < len(dim) else dim[-1])
-                got = r.ret if r.raised is None else f"<raises {r.raised}>"
-                n += 1
-                if isinstance(got, Sym):
-                    ctx.gap("R16.5", f"_get_dimension does not evaluate on {name}, index {idx} ({got})")
-                    return
-                if got != want:
-                    bad.append(f"{name} {dim}, figure {idx}: {got}, expected {want}")
-        ctx.instance("R16.5", gd.where(), f"_get_dimension evaluated on {n} (sizes, index) models: d[i] if i < len(d) else d[-1], scalars unchanged: {len(bad)} wrong result(s)")
-        if bad:
-            ctx.violation("R16.5", gd.short, "reuse rule " + bad[0][:80], gd.where(), "per-figure sizes are not `d[i] if i < len(d) else d[-1]` (positional, last value reused): " + "; ".join(bad[:3]))
-    # ---- the two per-figure loops on models of 1..3 figures
-    from .c06 import figure_path_table, emitted
+        return
+    dim, idx = ps
+    dt = _flow(pm, max_atoms=8, root_cls="RTFFigureService")
+    rows = _table(ctx, "R16.5", dt, gd, {dim: Sym(dim), idx: Sym(idx)}, "_get_dimension")
+    if rows is None:
+        return
+    n_len = {f"len({dim})": 1}
+    bad: dict[str, str] = {}
+    gaps: list[str] = []
+    for v, r in rows:
+        scalar = None
+        for k, x in v.items():
+            m = re.fullmatch(r"isinstance\(%s, ([\w|]+)\)" % re.escape(dim), k)
+            if m:
+                names = set(m.group(1).split("|"))
+                scalar = x if names <= _NUM_TYPES else (not x) if names <= _SEQ_TYPES else scalar
+            m = re.fullmatch(r"hasattr\(%s, (__len__|__getitem__|__iter__)\)" % re.escape(dim), k)
+            if m:
+                scalar = not x
+        inr = dt.cond_value(v, ast.Lt, Sym(idx), Sym(f"len({dim})"))
+        ret = r.ret
+        if r.raised is not None:
+            kind, txt = "raises", f"raises {r.raised}"
+        elif isinstance(ret, Sym) and ret.path == dim:
+            kind, txt = "whole", dim
+        elif isinstance(ret, SubV) and isinstance(ret.base, Sym) and ret.base.path == dim:
+            key, lk = ret.key, lin_of(ret.key)
+            txt = str(dt.show(ret))
+            if lk == {idx: 1}:
+                kind = "at-index"
+            elif lk == {"": -1} or lk == {**n_len, "": -1}:
+                kind = "last"
+            elif isinstance(key, CallV) and key.fn == "min" and len(key.args) == 2 and sorted(map(str, (lin_of(a) for a in key.args))) == sorted(map(str, ({idx: 1}, {**n_len, "": -1}))):
+                kind = "clamped"
+            else:
+                kind = "other"
+        else:
+            kind, txt = "?", str(dt.show(ret))[:60]
+        cond = f"number={scalar}, index < len={inr}"
+        if kind == "?":
+            gaps.append(f"_get_dimension returns `{txt}` ({cond}), which is not the size value or one of its elements")
+        elif scalar is True:
+            if kind != "whole":
+                bad.setdefault("reuse rule scalar " + txt[:60], f"a scalar size yields `{txt}`; it applies unchanged to every figure")
+        elif scalar is None:
+            gaps.append(f"_get_dimension returns `{txt}` without deciding whether the size is a number or a sequence")
+        elif kind == "whole":
+            bad.setdefault("reuse rule whole list", "a list of sizes is returned whole instead of the figure's own element")
+        elif kind == "raises":
+            bad.setdefault("reuse rule " + txt[:60], f"a list of sizes {txt} ({cond})")
+        elif kind == "clamped":
+            pass
+        elif inr is True:
+            if kind != "at-index":
+                bad.setdefault("reuse rule " + txt[:60], f"inside the list (index < len) figure `{idx}` gets `{txt}`, expected {dim}[{idx}]")
+        elif inr is False:
+            if kind != "last":
+                bad.setdefault("reuse rule " + txt[:60], f"beyond the end of the list (index >= len) figure `{idx}` gets `{txt}`, expected the last value {dim}[-1]")
+        else:
+            bad.setdefault("reuse rule " + txt[:60], f"figure `{idx}` gets `{txt}` without comparing the index with the length of the list; expected {dim}[{idx}] if {idx} < len({dim}) else {dim}[-1]")
+    ctx.instance("R16.5", gd.where(), f"_get_dimension over symbolic (sizes, index): {len(rows)} valuation(s) of (number / sequence, index < len): terms d, d[i], d[-1] as specified: "
+                 f"{len(bad)} disagreement(s)")
+    if not bad:
+        for g in gaps[:2]:
+            ctx.gap("R16.5", g)
+    for k, msg in sorted(bad.items()):
+        ctx.violation("R16.5", gd.short, k, gd.where(), "per-figure sizes are not `d[i] if i < len(d) else d[-1]` (positional, last value reused): " + msg)
+
+
+def r16_5(ctx: Ctx) -> None:
+    pm = ctx.pm
+    _dimension_rule(ctx)
+    # ---- the two per-figure loops: ONE generic iteration each
+    from .c06 import figure_path_table
     t = figure_path_table(ctx)
     fi = t["fi"]
     if t["error"]:
         ctx.gap("R16.5", t["error"])
     else:
-        seen = set()
-        rows = []
-        for n, v, r in t["rows"]:
-            calls = [e for e in r.effects if e[0] == "call" and e[1] == "_encode_single_figure"]
-            sig = (n, tuple(str(e[3]) for e in calls))
-            if r.raised is None and sig not in seen:
-                seen.add(sig)
-                rows.append((n, calls, emitted(r.ret)))
-        _figure_loop(ctx, fi, rows, r"(?:\w+\.)*rtf_figure")
+        _figure_loop(ctx, fi, t["rows"], t["dt"], r"(?:\w+\.)*rtf_figure")
     ef = pm.func("RTFFigureService.encode_figure")
     ps = _params(ef)
     if len(ps) != 1:
         ctx.gap("R16.5", "encode_figure no longer takes one argument")
     else:
-        rows = []
-        for n in (1, 2, 3):
-            figs, fmts = [Sym(f"fig{k}") for k in range(n)], [Sym(f"fmt{k}") for k in range(n)]
-            dt = _flow(pm, effect_calls={"_encode_single_figure"}, opaque={"_get_dimension"}, max_atoms=10, root_cls="RTFFigureService",
-                       call_model={"rtf_read_figure": lambda a, k, figs=figs, fmts=fmts: (list(figs), list(fmts))})
-            tb = _table(ctx, "R16.5", dt, ef, {ps[0]: Sym(ps[0], "RTFFigure")}, "encode_figure")
-            if tb is None:
-                rows = None
-                break
-            for v, r in tb:
-                calls = [e for e in r.effects if e[0] == "call" and e[1] == "_encode_single_figure"]
-                if r.raised is None and calls:
-                    rows.append((n, calls, emitted(r.ret if isinstance(r.ret, (list, tuple)) else [r.ret])))
-        if rows is not None:
-            _figure_loop(ctx, ef, rows, re.escape(ps[0]))
+        dt = _flow(pm, effect_calls={"_encode_single_figure"}, opaque={"_get_dimension", "rtf_read_figure"}, max_atoms=10, root_cls="RTFFigureService")
+        tb = _table(ctx, "R16.5", dt, ef, {ps[0]: Sym(ps[0], "RTFFigure")}, "encode_figure")
+        if tb is not None:
+            _figure_loop(ctx, ef, tb, dt, re.escape(ps[0]))
     ctx.floor("R16.5", 3)
 
 
-def _figure_loop(ctx: Ctx, fi, rows, fig_obj: str) -> None:
-    """rows: (number of figures, calls of _encode_single_figure in execution order, emitted sequence)"""
+def _figure_loop(ctx: Ctx, fi, rows, dt, fig_obj: str) -> None:
+    """rows of a function with a per-figure loop, evaluated with ONE generic iteration: the figure of iteration i is encoded from
+    (data[i], formats[i]) of one rtf_read_figure result, _get_dimension(fig_width, i), _get_dimension(fig_height, i), exactly once,
+    and followed by \\page iff the iteration is not the last"""
+    from .c06 import CallV, SubV, loop_of, iteration_pieces
     short = fi.short
-    if not rows:
-        ctx.gap("R16.5", f"{short}: no evaluated path encodes a figure")
-        return
-    bad = {}
-    for n, calls, seq in rows:
-        if len(calls) != n:
-            bad.setdefault("figure count", f"{len(calls)} figure(s) encoded for {n} input figure(s)")
+    bad: dict[str, str] = {}
+    gaps: dict[str, None] = {}
+    seen = set()
+    n_calls = 0
+    for v, r in rows:
+        if r.raised is not None:
             continue
-        for k, e in enumerate(calls):
-            a = [str(x) for x in e[3]] + [""] * 5
-            kw = {k_: str(v_) for k_, v_ in e[4].items()}
+        calls = [(k, e) for k, e in enumerate(r.effects, 1) if e[0] == "call" and e[1] == "_encode_single_figure"]
+        if not calls:
+            continue
+        ret = r.ret if isinstance(r.ret, (list, tuple)) else [r.ret]
+        _outside, inside = iteration_pieces(ret)
+        sig = (tuple(str(e[3]) + str(e[4]) for _k, e in calls), tuple((lp, tuple(ps)) for lp, ps in inside.items() if "_encode_single_figure" in ps), tuple(sorted((k, x) for k, x in v.items() if " is last" in k)))
+        if sig in seen:
+            continue
+        seen.add(sig)
+        per_loop: dict = {}
+        for k, e in calls:
+            per_loop.setdefault(loop_of(r.effects, k), []).append((k, e))
+        if None in per_loop:
+            gaps[f"a figure is encoded outside a loop over the figures"] = None
+            continue
+        for lp, cs in per_loop.items():
+            if len(cs) != 1:
+                bad.setdefault("figure count", f"one iteration over the figures encodes {len(cs)} figures")
+                continue
+            k, e = cs[0]
+            n_calls += 1
+            _recv, args, kw = r.raw.get(k, (None, (), {}))
+            a = list(args) + [None] * 5
             d_, f_, w_, h_ = kw.get("figure_data", a[0]), kw.get("figure_format", a[1]), kw.get("width", a[2]), kw.get("height", a[3])
-            if d_ != f"fig{k}" or f_ != f"fmt{k}":
-                bad.setdefault(f"figure arguments {[d_, f_]}", f"figure {k} of {n} is encoded from data `{d_}` / format `{f_}`, expected its own (fig{k}, fmt{k})")
+
+            def elem_of(x):
+                """(sequence term, index term) of an element of a sequence"""
+                return (x.base, x.key) if isinstance(x, SubV) else (None, None)
+            (dseq, dk), (fseq, fk) = elem_of(d_), elem_of(f_)
+            own = isinstance(dk, Sym) and isinstance(fk, Sym) and dk.path == lp and fk.path == lp
+            src_ok = isinstance(dseq, SubV) and isinstance(fseq, SubV) and isinstance(dseq.base, CallV) and dseq.base.fn == "rtf_read_figure" and fseq.base is dseq.base or \
+                (isinstance(dseq, SubV) and isinstance(fseq, SubV) and isinstance(dseq.base, Sym) and isinstance(fseq.base, Sym) and dseq.base.path == fseq.base.path and "rtf_read_figure" in dseq.base.path)
+            if not own:
+                bad.setdefault(f"figure arguments {[str(dt.show(d_))[:40], str(dt.show(f_))[:40]]}", f"iteration {lp} encodes data `{str(dt.show(d_))[:60]}` / format `{str(dt.show(f_))[:60]}`, expected the iteration's own elements")
+            elif not src_ok:
+                gaps[f"the figure data / format (`{str(dt.show(d_))[:50]}`, `{str(dt.show(f_))[:50]}`) could not be traced to one rtf_read_figure result"] = None
+            elif (dseq.key, fseq.key) != (0, 1):
+                bad.setdefault("figure arguments data/format swapped", f"data is element {dseq.key} and format element {fseq.key} of the rtf_read_figure result, expected (0, 1)")
             for val, fld, other in ((w_, "fig_width", "fig_height"), (h_, "fig_height", "fig_width")):
-                if re.fullmatch(r"(?:\w+\.)*_get_dimension\(%s\.%s, %d\)" % (fig_obj, fld, k), val):
-                    continue
-                if re.fullmatch(r"(?:\w+\.)*_get_dimension\(%s\.%s, %d\)" % (fig_obj, other, k), val):
-                    bad.setdefault("figure arguments width/height swapped", f"figure {k}: {fld[4:]} is taken from {other}")
-                elif "_get_dimension(" in val:
-                    bad.setdefault("dimension lookup " + val[:60], f"figure {k} of {n}: {fld[4:]} is `{val}`, expected _get_dimension({fld}, {k})")
-                elif fld in val or other in val or "BroadcastValue" in val:
-                    bad.setdefault("dimension lookup", f"figure {k} of {n}: {fld[4:]} is `{val[:80]}`, not taken by _get_dimension({fld}, {k}) (positional, last value reused)")
+                txt = str(dt.show(val))
+                if isinstance(val, CallV) and val.fn == "_get_dimension" and len(val.args) == 2:
+                    src, ix = val.args
+                    sp = src.path if isinstance(src, Sym) else str(src)
+                    if not (isinstance(ix, Sym) and ix.path == lp):
+                        bad.setdefault("dimension lookup " + txt[:60], f"iteration {lp}: {fld[4:]} is `{txt}`, expected _get_dimension({fld}, <own index>)")
+                    elif re.fullmatch(r"%s\.%s" % (fig_obj, fld), sp):
+                        continue
+                    elif re.fullmatch(r"%s\.%s" % (fig_obj, other), sp):
+                        bad.setdefault("figure arguments width/height swapped", f"{fld[4:]} is taken from {other}")
+                    else:
+                        bad.setdefault("dimension lookup " + txt[:60], f"{fld[4:]} is `{txt}`, expected _get_dimension({fld}, index)")
+                elif fld in txt or other in txt or "BroadcastValue" in txt:
+                    bad.setdefault("dimension lookup", f"{fld[4:]} is `{txt[:80]}`, not taken by _get_dimension({fld}, index) (positional, last value reused)")
                 else:
-                    ctx.gap("R16.5", f"{short}: the {fld[4:]} passed for figure {k} (`{val[:60]}`) could not be traced to {fld}")
-        if seq is not None:
-            pieces = [nm for nm, _l in seq if nm == "_encode_single_figure" or (nm.startswith("lit:") and nm[4:].strip() == "\\page")]
-            pieces = ["\\page" if p.startswith("lit:") else p for p in pieces]
-            want = [x for k in range(n) for x in (["_encode_single_figure"] + (["\\page"] if k < n - 1 else []))]
-            if pieces != want:
-                bad.setdefault("page guard", f"{n} figure(s): figures and page breaks are emitted as {pieces}, expected {want}")
-    ctx.instance("R16.5", fi.where(), f"{short}: on models of 1-3 figures, figure k is encoded from (data k, format k, _get_dimension(fig_width, k), _get_dimension(fig_height, k)) "
-                 f"and followed by \\page unless last: {len(bad)} kind(s) of disagreement")
+                    gaps[f"the {fld[4:]} passed for a figure (`{txt[:60]}`) could not be traced to {fld}"] = None
+            # page break guard of this iteration
+            pieces = inside.get(lp)
+            if pieces is not None:
+                got = [p for p in pieces if p == "_encode_single_figure" or (p.startswith("lit:") and p[4:].strip() == "\\page")]
+                n_pg = len(got) - got.count("_encode_single_figure")
+                last = v.get(f"{lp} is last")
+                if last is None:
+                    bad.setdefault("page guard", f"\\page is emitted {n_pg}x per figure without consulting whether the figure is the last one")
+                elif n_pg != (0 if last else 1) or (n_pg and got[-1] == "_encode_single_figure"):
+                    bad.setdefault("page guard", f"figure and page break are emitted as {[g if g[0] == '_' else g[4:] for g in got]} with last={last}, expected the figure followed by \\page iff it is not the last")
+    ctx.instance("R16.5", fi.where(), f"{short}: ONE generic iteration of the per-figure loop ({n_calls} distinct evaluated call(s)): figure i is encoded from (data[i], format[i], _get_dimension(fig_width, i), "
+                 f"_get_dimension(fig_height, i)) and followed by \\page unless last: {len(bad)} kind(s) of disagreement")
+    if not n_calls and not gaps:
+        ctx.gap("R16.5", f"{short}: no evaluated path encodes a figure")
+    if not bad:
+        for g in gaps:
+            ctx.gap("R16.5", f"{short}: {g}")
     for k, msg in sorted(bad.items()):
         ctx.violation("R16.5", short, k, fi.where(), f"{short}: {msg}")
 
 
 def check(ctx: Ctx) -> None:
     ctx.explain(
-        "R16.1 dataflow identity: open(path,'rb').read() unmemoised; rtf_read_figure evaluated on lists of 1 and 3 paths (data k / format k "
-        "from file k, in order); the picture group contains _binary_to_hex(data) once; _binary_to_hex evaluated on hex strings of 10 lengths "
-        "(lines concatenate to bytes.hex(), even lengths, whitespace separators). R16.2 decision table of the format detection over suffix x "
-        "MIME type and blip word per format. R16.3 the PNG and JPEG readers evaluated on synthetic images (every SOF marker, non-frame "
-        "segments before the frame header, wrong signatures); control words take their documented sources. R16.4 goal sizes use the shared "
-        "inch->twip conversion and nobody else multiplies by 1440. R16.5 _get_dimension on concrete (sizes, index) models; the two per-figure "
-        "loops on models of 1-3 figures: own data/format, index-wise dimensions, \\page iff not last. R16.6 placement on figure pages: see C06.")
-    ctx.assume("struct.unpack and bytes.hex behave as documented")
-    ctx.undecided("pixel dimensions of arbitrary (possibly malformed) image files")
+        "Abstract evaluation of the syntax tree (FlowDT of c06, an extension of sa/dtab.DT): inputs are uninterpreted symbols, values are structured terms (subscript, slice, call, "
+        "integer-linear form), every consulted condition is enumerated over all its valuations, a loop over a symbolic collection (for / comprehension / while) is ONE generic iteration "
+        "(position symbol, atoms `is first` / `is last`, loop-carried locals unconstrained); nothing of the package is imported or run. "
+        "R16.1 dataflow identity: open(path,'rb').read() unmemoised; rtf_read_figure: the generic iteration appends _read_image_data(p) and _determine_image_format(p) of the same current "
+        "path p to lists that start empty; the picture group contains _binary_to_hex(data) once; _binary_to_hex: lines are H[Lk : Lk+L] over range(0, len(H), L), H = data.hex(), L even "
+        "(linear forms of the slice bounds), whitespace separators. R16.2 decision table of the format detection over suffix x MIME type (keys of the tables plus one other value each) and blip "
+        "word per format. R16.3 PNG reader: width/height terms decode 4 big-endian bytes at 16 / 20, signature test data[0:8]; JPEG reader: generic iteration of the scan loop, both marker bytes "
+        "enumerated over 0..255, dimensions returned exactly for the 13 SOF markers from +7/+5, other segments skipped by the length at +2. R16.4 goal sizes use the shared inch->twip "
+        "conversion and nobody else multiplies by 1440. R16.5 _get_dimension: decision table with result terms d / d[i] / d[-1]; the two per-figure loops: own data/format, "
+        "_get_dimension(size, i), \\page iff not last. R16.6 placement on figure pages: see C06.")
+    ctx.assume("struct.unpack / int.from_bytes / bytes.hex behave as documented; format facts: PNG IHDR layout (W3C PNG 11.2.2), JPEG marker codes and frame header layout (ITU-T T.81 B.1, B.2.2)")
+    ctx.assume("conditions are treated as independent atoms (all combinations enumerated, also infeasible ones); atoms that do not mention a property-relevant name are pinned to one "
+               "value where a rule says so (figure path: see C06)")
+    ctx.undecided("pixel dimensions of malformed image files; behaviour of the JPEG scan over several iterations beyond the one generic step (termination, standalone markers without a length)")
     r16_1(ctx)
     r16_2_3(ctx)
     units_rule(ctx, "R16.4")
